@@ -1,74 +1,290 @@
-// Back end K support + harnesses for `StreamsManagerBase` (included from /repo/src/streams_manager.rs).
+// Back end K support + harnesses for `StreamsManagerBase` (included from /repo/src/streams_manager.rs; private fields reachable).
+//
+// Abstract state (DESIGN §3.3): live ⊆ 0..M, vacant: FIFO sequence of the complement, keep: [bool; M], parked: which live
+// streams have a waker registered. Inv_SM: used_streams = ascending(live) padded with u32::MAX; used_streams_count == |live|;
+// wakers[i] == None for vacant i; vacant ring quiescent, duplicate-free.
+// Inductive step: ARBITRARY Inv_SM state (every subset, every vacant order, every vacant-ring origin) -- one real operation.
+//
+// `StreamsManagerBase::new()` is NOT used (its String / Vec / try_into plumbing is irrelevant to every property and does not
+// finish under symbolic execution); the struct is built field by field instead. `sync_vacant_and_used_streams()` (Vec::concat +
+// sort_unstable, unbounded loop) is replaced in the callers' harnesses by the functional model `sync_model` below: the real function is
+// verified against that same contract for every MAX_STREAMS by back end V (unit `streams_sync`).
+
 // @module streams_manager
+// @sizes sm_proofs: m1=quick m2=quick m4=thorough
 #[allow(unused_imports)] use super::*;
+#[allow(unused_imports)] use crate::ogre_std::ogre_queues::atomic::atomic_move::verif_hooks::RingModel;
 use std::task::{RawWaker, RawWakerVTable};
 
-/// A waker whose wake-ups are counted in `WAKES[data]` -- `data` is the stream id the test registered it for.
-pub(crate) static WAKES: [AtomicU32; 4] = [AtomicU32::new(0), AtomicU32::new(0), AtomicU32::new(0), AtomicU32::new(0)];
+/// A waker whose wake-ups are counted in `WAKES[data]` -- `data` is the stream id the harness registered it for.
+/// At every wake it also snapshots the keep-running flag of that stream (through `KEEP_PROBE`), so "flag first, wake second" is observable.
+pub(crate) static WAKES: [AtomicU32; 8] = [AtomicU32::new(0), AtomicU32::new(0), AtomicU32::new(0), AtomicU32::new(0), AtomicU32::new(0), AtomicU32::new(0), AtomicU32::new(0), AtomicU32::new(0)];
+pub(crate) static KEEP_AT_LAST_WAKE: [AtomicBool; 8] = [AtomicBool::new(true), AtomicBool::new(true), AtomicBool::new(true), AtomicBool::new(true), AtomicBool::new(true), AtomicBool::new(true), AtomicBool::new(true), AtomicBool::new(true)];
+pub(crate) static KEEP_PROBE: std::sync::atomic::AtomicPtr<bool> = std::sync::atomic::AtomicPtr::new(std::ptr::null_mut());
 fn w_clone(p: *const ()) -> RawWaker { RawWaker::new(p, &VTABLE) }
-fn w_wake(p: *const ()) { WAKES[p as usize].fetch_add(1, Relaxed); }
+fn w_wake(p: *const ()) {
+    WAKES[p as usize].fetch_add(1, Relaxed);
+    let probe = KEEP_PROBE.load(Relaxed);
+    if !probe.is_null() && (p as usize) < 4 { KEEP_AT_LAST_WAKE[p as usize].store(unsafe { *probe.add(p as usize) }, Relaxed); }
+}
 fn w_drop(_p: *const ()) {}
 static VTABLE: RawWakerVTable = RawWakerVTable::new(w_clone, w_wake, w_wake, w_drop);
+/// slots 0..3: the waker registered for stream i; slots 4..7: a *different* waker for stream i-4 (used to test waker replacement)
 #[allow(dead_code)] pub(crate) fn counting_waker(slot: usize) -> Waker { unsafe { Waker::from_raw(RawWaker::new(slot as *const (), &VTABLE)) } }
 #[allow(dead_code)] pub(crate) fn wakes(slot: usize) -> u32 { WAKES[slot].load(Relaxed) }
+#[allow(dead_code)] pub(crate) fn total_wakes(upto: usize) -> u32 { let mut s = 0; let mut i = 0; while i < upto { s += wakes(i); i += 1; } s }
 
-/// Builds a manager WITHOUT going through `new()` (whose `String`/`Vec` plumbing is irrelevant to every property and very
-/// expensive to execute symbolically) and puts it in the state "streams `0..live` created in order, none dropped".
-#[allow(dead_code)] pub(crate) fn manager_with_streams<const MAX_STREAMS: usize>(live: u32, parked: bool) -> StreamsManagerBase<MAX_STREAMS> {
+#[allow(dead_code)] #[derive(Clone, Copy)]
+pub(crate) struct SmState<const M: usize> {
+    pub live: [bool; M], pub order: [u32; M], pub keep: [bool; M], pub parked: [bool; M], pub v_origin: u32,
+}
+impl<const M: usize> SmState<M> {
+    #[allow(dead_code)] pub(crate) fn live_count(&self) -> u32 { let mut c = 0; let mut i = 0; while i < M { if self.live[i] { c += 1; } i += 1; } c }
+    /// the vacant FIFO: `order` (a permutation of 0..M) filtered by !live
+    #[allow(dead_code)] pub(crate) fn vacant_seq(&self) -> ([u32; M], u32) {
+        let mut v = [u32::MAX; M]; let mut n = 0usize; let mut i = 0;
+        while i < M { let id = self.order[i]; if !self.live[id as usize] { v[n] = id; n += 1; } i += 1; }
+        (v, n as u32)
+    }
+    #[allow(dead_code)] pub(crate) fn used_list(&self) -> [u32; M] {
+        let mut u = [u32::MAX; M]; let mut n = 0usize; let mut i = 0;
+        while i < M { if self.live[i] { u[n] = i as u32; n += 1; } i += 1; }
+        u
+    }
+    /// "streams 0..s created in order, none dropped, all parked, all told to keep running" (the C04 scenario)
+    #[allow(dead_code)] pub(crate) fn first_streams_parked(s: u32) -> Self {
+        let mut st = SmState { live: [false; M], order: [0; M], keep: [false; M], parked: [false; M], v_origin: 0 };
+        let mut i = 0; while i < M { st.order[i] = i as u32; if (i as u32) < s { st.live[i] = true; st.keep[i] = true; st.parked[i] = true; } i += 1; }
+        st
+    }
+}
+
+/// Builds a manager in the abstract state `s` WITHOUT going through `new()`
+#[allow(dead_code)] pub(crate) fn manager_in_state<const MAX_STREAMS: usize>(s: &SmState<MAX_STREAMS>) -> StreamsManagerBase<MAX_STREAMS> {
     let vacant_streams = FullSyncMove::<u32, MAX_STREAMS>::new();
-    let mut id = live;
-    while id < MAX_STREAMS as u32 { vacant_streams.publish_movable(id); id += 1; }
-    let mut used = [u32::MAX; MAX_STREAMS];
-    let mut keep = [false; MAX_STREAMS];
-    let mut i = 0;
-    while i < live as usize { used[i] = i as u32; keep[i] = true; i += 1; }
-    let wakers: [Option<Waker>; MAX_STREAMS] = std::array::from_fn(|i| if parked && (i as u32) < live { Some(counting_waker(i)) } else { None });
-    StreamsManagerBase {
+    let (vseq, vn) = s.vacant_seq();
+    let mut content = [u32::MAX; MAX_STREAMS];
+    let mut k = 0; while k < MAX_STREAMS { content[(s.v_origin as usize).wrapping_add(k) % MAX_STREAMS] = vseq[k]; k += 1; }
+    vacant_streams.force(s.v_origin, vn, content);
+    let live = s.live; let parked = s.parked;
+    let wakers: [Option<Waker>; MAX_STREAMS] = std::array::from_fn(|i| if live[i] && parked[i] { Some(counting_waker(i)) } else { None });
+    let n = s.live_count();
+    let m = StreamsManagerBase {
         vacant_streams,
-        used_streams:           UnsafeCell::new(Box::pin(used)),
-        used_streams_count:     AtomicU32::new(live),
-        created_streams_count:  AtomicU32::new(live),
+        used_streams:           UnsafeCell::new(Box::pin(s.used_list())),
+        used_streams_count:     AtomicU32::new(n),
+        created_streams_count:  AtomicU32::new(n),
         finished_streams_count: AtomicU32::new(0),
         wakers:                 UnsafeCell::new(Box::pin(wakers)),
         wakers_lock:            AtomicBool::new(false),
-        keep_streams_running:   UnsafeCell::new(Box::pin(keep)),
+        keep_streams_running:   UnsafeCell::new(Box::pin(s.keep)),
         streams_lock:           AtomicBool::new(false),
         streams_manager_name:   String::new(),
+    };
+    KEEP_PROBE.store(unsafe { (&mut **m.keep_streams_running.get()).as_mut_ptr() }, Relaxed);
+    m
+}
+#[allow(dead_code)] pub(crate) fn manager_with_streams<const MAX_STREAMS: usize>(live: u32, parked: bool) -> StreamsManagerBase<MAX_STREAMS> {
+    let mut s = SmState::<MAX_STREAMS>::first_streams_parked(live);
+    if !parked { s.parked = [false; MAX_STREAMS]; }
+    manager_in_state(&s)
+}
+
+/// observers
+#[allow(dead_code)] pub(crate) fn keep_of<const M: usize>(m: &StreamsManagerBase<M>) -> [bool; M] { unsafe { **m.keep_streams_running.get() } }
+#[allow(dead_code)] pub(crate) fn used_of<const M: usize>(m: &StreamsManagerBase<M>) -> [u32; M] { unsafe { **m.used_streams.get() } }
+#[allow(dead_code)] pub(crate) fn has_waker<const M: usize>(m: &StreamsManagerBase<M>, id: usize) -> bool { unsafe { (&**m.wakers.get())[id].is_some() } }
+#[allow(dead_code)] pub(crate) fn waker_is<const M: usize>(m: &StreamsManagerBase<M>, id: usize, w: &Waker) -> bool { unsafe { (&**m.wakers.get())[id].as_ref().map(|x| x.will_wake(w)).unwrap_or(false) } }
+#[allow(dead_code)] pub(crate) fn locks_free<const M: usize>(m: &StreamsManagerBase<M>) -> bool { !m.wakers_lock.load(Relaxed) && !m.streams_lock.load(Relaxed) }
+/// the vacant FIFO as (sequence, length)
+#[allow(dead_code)] pub(crate) fn vacant_of<const M: usize>(m: &StreamsManagerBase<M>) -> ([u32; M], u32) {
+    let (_o, l, _c) = m.vacant_streams.snapshot();
+    let mut v = [u32::MAX; M]; let mut k = 0; while k < l && (k as usize) < M { v[k as usize] = m.vacant_streams.seq_at(k); k += 1; }
+    (v, l)
+}
+
+/// element-wise array equality (`==` on arrays compiles to memcmp, whose byte loop would need its own unwinding bound)
+#[allow(dead_code)] pub(crate) fn arr_eq<T: PartialEq + Copy, const M: usize>(a: &[T; M], b: &[T; M]) -> bool { let mut i = 0; while i < M { if a[i] != b[i] { return false; } i += 1; } true }
+
+/// functional model (== the contract) of `sync_vacant_and_used_streams`:
+/// used_streams := ascending complement of the vacant ids within 0..MAX_STREAMS, padded with u32::MAX; takes and releases `streams_lock`
+#[allow(dead_code)] pub(crate) fn sync_model<const MAX_STREAMS: usize>(this: &StreamsManagerBase<MAX_STREAMS>) {
+    let used = unsafe { &mut * this.used_streams.get() };
+    let [a, b] = unsafe { this.vacant_streams.peek_remaining() };
+    let mut k = 0usize;
+    let mut id = 0u32;
+    while id < MAX_STREAMS as u32 {
+        let mut vacant = false;
+        let mut j = 0; while j < a.len() { if a[j] == id { vacant = true; } j += 1; }
+        let mut j = 0; while j < b.len() { if b[j] == id { vacant = true; } j += 1; }
+        if !vacant { used[k] = id; k += 1; }
+        id += 1;
     }
+    while k < MAX_STREAMS { used[k] = u32::MAX; k += 1; }
 }
 
 #[cfg(kani)]
 pub(crate) mod proofs {
     use super::*;
+    /// `_mm_pause` is not modelled by Kani; a spin hint has no effect on program state
     pub(crate) fn noop() {}
 
-    /// functional model of `sync_vacant_and_used_streams` (the real one is verified separately by back end V for every MAX_STREAMS):
-    /// used_streams := ascending complement of the vacant ids, padded with u32::MAX
-    pub(crate) fn sync_model<const MAX_STREAMS: usize>(this: &StreamsManagerBase<MAX_STREAMS>) {
-        let used = unsafe { &mut * this.used_streams.get() };
-        let [a, b] = unsafe { this.vacant_streams.peek_remaining() };
-        let mut k = 0usize;
-        let mut id = 0u32;
-        while id < MAX_STREAMS as u32 {
-            let mut vacant = false;
-            let mut j = 0; while j < a.len() { if a[j] == id { vacant = true; } j += 1; }
-            let mut j = 0; while j < b.len() { if b[j] == id { vacant = true; } j += 1; }
-            if !vacant { used[k] = id; k += 1; }
-            id += 1;
+    pub(crate) fn any_sm_state<const M: usize>() -> SmState<M> {
+        let s = SmState::<M> { live: kani::any(), order: kani::any(), keep: kani::any(), parked: kani::any(), v_origin: kani::any() };
+        let mut i = 0;
+        while i < M {
+            kani::assume(s.order[i] < M as u32);
+            let mut j = i + 1; while j < M { kani::assume(s.order[i] != s.order[j]); j += 1; }
+            i += 1;
         }
-        while k < MAX_STREAMS { used[k] = u32::MAX; k += 1; }
+        s
     }
 
-    // @props C10
-    #[kani::proof] #[kani::unwind(8)] #[kani::stub(std::hint::spin_loop, noop)]
-    #[kani::stub(StreamsManagerBase::sync_vacant_and_used_streams, sync_model)]
-    fn probe_create_stream_id() {
-        const M: usize = 2;
-        let live: u32 = kani::any(); kani::assume(live < M as u32);
-        let m = manager_with_streams::<M>(live, false);
-        let id = m.create_stream_id();
-        assert!(id == live, "next id");
-        assert!(m.running_streams_count() == live + 1, "count");
-        assert!(m.used_streams()[live as usize] == live, "used list");
+    // @group sm_proofs
+    macro_rules! sm_proofs { ($($modname:ident: $m:expr, $unw:expr;)*) => { $( mod $modname {
+        use super::*;
+        const M: usize = $m;
+
+        // @props C10 C07
+        #[kani::proof] #[kani::unwind($unw)] #[kani::stub(std::hint::spin_loop, noop)]
+        #[kani::stub(StreamsManagerBase::sync_vacant_and_used_streams, sync_model)]
+        fn create_stream_id() {
+            let s = any_sm_state::<M>();
+            kani::assume(s.live_count() < M as u32);
+            let m = manager_in_state(&s);
+            let (vseq, vn) = s.vacant_seq();
+            let id = m.create_stream_id();
+            assert!(id == vseq[0],                                           "create: hands out vacant[0] (FIFO of vacant ids)");
+            assert!(id < M as u32 && !s.live[id as usize],                   "create: the id was not live");
+            let mut s2 = s; s2.live[id as usize] = true;
+            assert!(m.running_streams_count() == s.live_count() + 1,         "create: running-stream count == |live| after the call");
+            assert!(arr_eq(&used_of(&m), &s2.used_list()),                           "create: used list == ascending(live + {id}), u32::MAX padded");
+            let (v2, vn2) = vacant_of(&m);
+            assert!(vn2 == vn - 1,                                           "create: one vacant id less");
+            let k: usize = kani::any(); kani::assume(k < M && k + 1 < vn as usize);
+            assert!(v2[k] == vseq[k + 1],                                    "create: vacant' = vacant.drop_first()");
+            let keep = keep_of(&m);
+            assert!(keep[id as usize],                                       "create: the new stream is told to keep running");
+            let j: usize = kani::any(); kani::assume(j < M && j != id as usize);
+            assert!(keep[j] == s.keep[j],                                    "create: other streams' flags untouched");
+            assert!(has_waker(&m, j) == (s.live[j] && s.parked[j]),          "create: other streams' wakers untouched");
+            assert!(locks_free(&m),                                          "create: no lock left held");
+            kani::cover!(s.live_count() + 1 == M as u32, "creating the last possible stream");
+        }
+
+        // @props C10 C07
+        #[kani::proof] #[kani::unwind($unw)] #[kani::stub(std::hint::spin_loop, noop)]
+        #[kani::stub(StreamsManagerBase::sync_vacant_and_used_streams, sync_model)]
+        fn report_stream_dropped() {
+            let s = any_sm_state::<M>();
+            let id: u32 = kani::any(); kani::assume(id < M as u32 && s.live[id as usize]);
+            let m = manager_in_state(&s);
+            let (vseq, vn) = s.vacant_seq();
+            m.report_stream_dropped(id);
+            let mut s2 = s; s2.live[id as usize] = false;
+            assert!(m.running_streams_count() == s.live_count() - 1,         "drop: running-stream count == |live| after the call");
+            assert!(arr_eq(&used_of(&m), &s2.used_list()),                           "drop: used list == ascending(live - {id})");
+            let (v2, vn2) = vacant_of(&m);
+            assert!(vn2 == vn + 1 && v2[vn as usize] == id,                  "drop: vacant' = vacant.push(id) -- the id becomes reusable");
+            let k: usize = kani::any(); kani::assume(k < vn as usize);
+            assert!(v2[k] == vseq[k],                                        "drop: rest of the vacant FIFO unchanged");
+            assert!(!has_waker(&m, id as usize),                             "drop: the stream's waker is forgotten");
+            let j: usize = kani::any(); kani::assume(j < M && j != id as usize);
+            assert!(has_waker(&m, j) == (s.live[j] && s.parked[j]),          "drop: other streams' wakers untouched");
+            assert!(keep_of(&m)[j] == s.keep[j],                             "drop: other streams' flags untouched");
+            assert!(locks_free(&m),                                          "drop: no lock left held");
+        }
+
+        // @props C07 C06
+        #[kani::proof] #[kani::unwind($unw)] #[kani::stub(std::hint::spin_loop, noop)]
+        fn cancel_stream() {
+            let s = any_sm_state::<M>();
+            let id: u32 = kani::any(); kani::assume(id < M as u32 && s.live[id as usize]);
+            let m = manager_in_state(&s);
+            let w0 = wakes(id as usize);
+            KEEP_AT_LAST_WAKE[id as usize].store(true, Relaxed);
+            m.cancel_stream(id);
+            assert!(!keep_of(&m)[id as usize],                               "cancel: the stream's keep-running flag is cleared");
+            if s.parked[id as usize] {
+                assert!(wakes(id as usize) == w0 + 1,                        "cancel: a parked stream is woken");
+                assert!(!KEEP_AT_LAST_WAKE[id as usize].load(Relaxed),       "cancel: flag first, wake second (the woken stream already sees the end signal)");
+            }
+            let j: usize = kani::any(); kani::assume(j < M && j != id as usize);
+            assert!(keep_of(&m)[j] == s.keep[j],                             "cancel: streams not targeted keep their flag");
+            assert!(arr_eq(&used_of(&m), &s.used_list()) && m.running_streams_count() == s.live_count(), "cancel: the live set is unchanged until the stream is dropped");
+            assert!(locks_free(&m),                                          "cancel: no lock left held");
+        }
+
+        // @props C07 C06
+        #[kani::proof] #[kani::unwind($unw)] #[kani::stub(std::hint::spin_loop, noop)]
+        fn cancel_all_streams() {
+            let s = any_sm_state::<M>();
+            let m = manager_in_state(&s);
+            let before = total_wakes(M);
+            m.cancel_all_streams();
+            let keep = keep_of(&m);
+            let j: usize = kani::any(); kani::assume(j < M);
+            if s.live[j] {
+                assert!(!keep[j],                                            "cancel_all: every live stream is told to end");
+            } else {
+                assert!(keep[j] == s.keep[j],                                "cancel_all: flags of non-live ids untouched");
+            }
+            let mut parked_live = 0; let mut i = 0; while i < M { if s.live[i] && s.parked[i] { parked_live += 1; } i += 1; }
+            assert!(total_wakes(M) == before + parked_live,                  "cancel_all: every parked live stream is woken exactly once");
+            assert!(locks_free(&m),                                          "cancel_all: no lock left held");
+        }
+
+        // @props C04 C07
+        #[kani::proof] #[kani::unwind($unw)] #[kani::stub(std::hint::spin_loop, noop)]
+        fn wake_stream() {
+            let s = any_sm_state::<M>();
+            let id: u32 = kani::any(); kani::assume(id < M as u32);
+            let m = manager_in_state(&s);
+            let w0 = wakes(id as usize); let all0 = total_wakes(M);
+            m.wake_stream(id);
+            if s.live[id as usize] && s.parked[id as usize] {
+                assert!(wakes(id as usize) == w0 + 1,                        "wake: the registered waker of that stream is invoked");
+            }
+            assert!(total_wakes(M) - all0 == wakes(id as usize) - w0,        "wake: no other stream's waker is invoked");
+            assert!(locks_free(&m),                                          "wake: no lock left held");
+        }
+
+        // @props C04 C07
+        #[kani::proof] #[kani::unwind($unw)] #[kani::stub(std::hint::spin_loop, noop)]
+        fn register_stream_waker() {
+            let s = any_sm_state::<M>();
+            let id: u32 = kani::any(); kani::assume(id < M as u32 && s.live[id as usize]);
+            let m = manager_in_state(&s);
+            let same: bool = kani::any();           // re-registering the very same waker, or a different one
+            let slot = if same { id as usize } else { id as usize + 4 };
+            let w = counting_waker(slot);
+            let w0 = wakes(slot);
+            m.register_stream_waker(id, &w);
+            assert!(waker_is(&m, id as usize, &w),                           "register: afterwards the stored waker wakes the registering task");
+            if !(s.parked[id as usize] && same) {
+                assert!(wakes(slot) >= w0 + 1,                               "register: when a waker is newly stored / replaced, the task is self-woken at least once (closes the missed-wake window)");
+            }
+            let j: usize = kani::any(); kani::assume(j < M && j != id as usize);
+            assert!(has_waker(&m, j) == (s.live[j] && s.parked[j]),          "register: other streams' wakers untouched");
+            assert!(locks_free(&m),                                          "register: no lock left held");
+        }
+
+        // @props C06 C10 C07
+        #[kani::proof] #[kani::unwind($unw)] #[kani::stub(std::hint::spin_loop, noop)]
+        fn queries() {
+            let s = any_sm_state::<M>();
+            let m = manager_in_state(&s);
+            assert!(m.running_streams_count() == s.live_count(),             "running_streams_count == |live|");
+            let mut any = false; let mut i = 0; while i < M { any = any || s.keep[i]; i += 1; }
+            assert!(m.is_any_stream_running() == any,                        "is_any_stream_running == exists id. keep[id]");
+            let id: u32 = kani::any(); kani::assume(id < M as u32);
+            assert!(m.keep_stream_running(id) == s.keep[id as usize],        "keep_stream_running(id) == keep[id]");
+            assert!(arr_eq(m.used_streams(), &s.used_list()),                      "used_streams() == ascending(live), padded");
+        }
+    } )* } }
+    sm_proofs! {
+        m1: 1, 4;
+        m2: 2, 5;
+        m4: 4, 7;
     }
 }
